@@ -251,6 +251,10 @@ def run_case(script):
     if k == 'connect':
       env['attempt_open'][c] = True
       ev.append({'e': 'Attempt', 't': ms()})
+    elif k in ('recv_failed', 'recv_eof', 'send_failed'):
+      # the client has observed the established connection failing: the outage (and the
+      # resurrector's clock) starts here, whether or not the resurrector's state is visible
+      ev.append({'e': 'Down', 't': ms()})
     elif k == 'connect_failed':
       if env['attempt_open'].pop(c, None):
         ev.append({'e': 'AttemptEnd', 'ok': 0, 't': ms()})
